@@ -261,7 +261,13 @@ def rule_e(ctx):
     rep.ob('E', 'core.from_dataset::materialises-before-building', ok, fd,
            '' if ok else 'from_dataset must materialise the full iteration (list(...)) before building the snapshot')
     # keyed snapshot only if keys are unique
-    ok = any(isinstance(n, ast.If) and 'len(new) == len(items)' in A.src(n.test) for n in A.walk_local(fd))
+    ok = False
+    for n in A.walk_local(fd):
+        if isinstance(n, ast.If):
+            t, _neg = A.strip_not(n.test)
+            if isinstance(t, ast.Compare) and len(t.ops) == 1 and isinstance(t.ops[0], (ast.Eq, ast.NotEq)) \
+                    and all(isinstance(x, ast.Call) and A.dotted(x.func) == 'len' for x in [t.left, t.comparators[0]]):
+                ok = True
     rep.ob('E', 'core.from_dataset::keyed-only-if-keys-unique', ok, fd, '')
 
 
